@@ -2,6 +2,8 @@
    Only statements + exact. *)
 From Utp Require Import Base.Prelude Wire.SeqNr Wire.Header Sock.Dispatcher Sock.Dispatcher_Proofs
   Sock.DispObs Sock.DispObs_Proofs.
+From Utp Require Import Tx.Segments Conn.Recovery Conn.Msg Conn.VSockRec Conn.VSock Conn.VSockRun Conn.VObs
+  Conn.C10_Pred Conn.C14C08_Pred Conn.C08_Pred2 Conn.VSock_Lemmas Conn.VSock_Inv Conn.C10_Proofs Conn.C08_Step.
 
 (* when the Shutdown request of a connection that is gone is handled, exactly its entry is
    released: the key is free again, its share of the limit is returned, nothing else is touched *)
@@ -54,3 +56,93 @@ Print Assumptions c08_step_ok_every_step.
 Print Assumptions c08_slot_released.
 Print Assumptions c08_silent_after_release.
 Print Assumptions c08_table_bounded.
+
+(* ================================================================== connection level (M3):
+   the termination deadline.  c08_deadline_ok (Conn/C14C08_Pred.v) is a theorem of EVERY step from
+   EVERY state (no invariant is needed: the timer tail of the poll itself arms the final-chance
+   deadline), hence of every trace. *)
+Theorem c08_deadline_ok_every_step : forall (CC : Type) (cci : cc_iface CC) (cfg : vconfig) (s : vsock CC) (o : vop),
+  c08_deadline_ok cfg (VSock_Lemmas.fstep_of cci s o) = true.
+Proof. exact @c08_deadline_ok_step. Qed.
+
+Theorem c08_deadline_ok_every_trace : forall (CC : Type) (cci : cc_iface CC) (cfg : vconfig)
+    (ops : list vop) (s : vsock CC),
+  forallb (c08_deadline_ok cfg) (ftrace cci s ops) = true.
+Proof. exact @c08_deadline_ok_trace. Qed.
+
+(* the timer tail of a poll that leaves our FIN out: deadline armed, at most the final-chance delay
+   away, never later than the deadline armed before, and the sleep asked for ends no later *)
+Theorem c08_tail_deadline : forall (CC : Type) (sb : vsock CC),
+  v_transport_pending sb = false -> is_local_fin_or_later (v_state sb) = true ->
+  exists t d,
+    v_t_inactivity (poll_tail sb) = Some t /\ t <= v_now sb + SHUTDOWN_FINAL_CHANCE_DELAY /\
+    v_arm_in (poll_tail sb) = Some d /\ v_now sb + d <= Z.max t (v_now sb) /\ 0 <= d /\
+    (forall t0, v_t_inactivity sb = Some t0 -> t <= t0).
+Proof. exact @tail_deadline. Qed.
+
+(* what the deadline is good for: a poll that starts at or after it, with nothing from the peer in
+   the inbox (dispatcher channel open) and a transport that never answers Pending, does not return
+   Pending — the task ends *)
+Theorem c08_deadline_fires : forall (CC : Type) (cci : cc_iface CC) (s : vsock CC)
+    (sc : list send_outcome) (t : Z) (s' : vsock CC) (r : poll_result),
+  v_t_inactivity s = Some t -> t <= v_env_now s -> v_inbox s = [] -> v_inbox_closed s = false ->
+  script_nopending sc = true ->
+  poll cci (VSockRec.set_sends s sc) = (s', r) -> r <> PollPending.
+Proof. exact @deadline_fires. Qed.
+
+(* a poll that returns Pending with a writable transport has drained the inbox and the dispatcher's
+   channel is still open *)
+Theorem c08_poll_pending_inbox_drained : forall (CC : Type) (cci : cc_iface CC) (s s' : vsock CC),
+  poll cci s = (s', PollPending) -> v_transport_pending s' = false ->
+  v_inbox s' = [] /\ v_inbox_closed s' = false.
+Proof. exact @poll_pending_ibe. Qed.
+
+(* our FIN out + writable transport + silence from the peer: bounded time to the end of the task *)
+Theorem c08_silence_ends : forall (CC : Type) (cci : cc_iface CC) (s : vsock CC)
+    (sc : list send_outcome) (s1 : vsock CC),
+  poll cci (VSockRec.set_sends s sc) = (s1, PollPending) ->
+  v_transport_pending s1 = false -> is_local_fin_or_later (v_state s1) = true ->
+  exists t d,
+    v_t_inactivity s1 = Some t /\ t <= v_env_now s1 + SHUTDOWN_FINAL_CHANCE_DELAY /\
+    v_arm_in s1 = Some d /\ v_env_now s1 + d <= Z.max t (v_env_now s1) /\
+    forall now' sc' s2 r, t <= now' -> script_nopending sc' = true ->
+      poll cci (VSockRec.set_sends (set_env_now s1 now') sc') = (s2, r) -> r <> PollPending.
+Proof. exact @silence_ends. Qed.
+
+(* the same as a predicate over observed traces (Conn/C08_Pred2.v): every trace from every state *)
+Theorem c08_fires_every_step : forall (CC : Type) (cci : cc_iface CC) (dl : option Z) (s : vsock CC) (o : vop),
+  fires_inv dl s ->
+  c08_fires_at dl (VSock_Lemmas.fstep_of cci s o) = true /\
+  fires_inv (c08_fires_next dl (VSock_Lemmas.fstep_of cci s o)) (vstep_state cci s o).
+Proof. exact @c08_fires_step. Qed.
+
+Theorem c08_fires_ok_every_trace : forall (CC : Type) (cci : cc_iface CC) (cfg : vconfig)
+    (ops : list vop) (s : vsock CC),
+  c08_fires_ok cfg (ftrace cci s ops) = true.
+Proof. exact @c08_fires_ok_trace. Qed.
+
+Theorem c08_connection_nonvacuous :
+  exists w cfg ops,
+    vconfig_ok cfg = true /\ Forall op_msg_ok ops /\
+    existsb deadline_guard (wtrace w cfg ops) = true /\
+    forallb (c08_deadline_ok cfg) (wtrace w cfg ops) = true /\
+    c08_fires_guard_from None (wtrace w cfg ops) = true /\
+    c08_fires_ok cfg (wtrace w cfg ops) = true /\
+    match rev (wtrace w cfg ops) with
+    | st :: _ => match fs_result st with
+                 | FrPoll (PollReadyErr ErrRemoteInactiveForTooLong) _ _ _ => true
+                 | _ => false
+                 end
+    | [] => false
+    end = true.
+Proof. exact c08_nonvacuous. Qed.
+
+Print Assumptions c08_deadline_ok_every_step.
+Print Assumptions c08_deadline_ok_every_trace.
+Print Assumptions c08_tail_deadline.
+Print Assumptions c08_deadline_fires.
+Print Assumptions c08_poll_pending_inbox_drained.
+Print Assumptions c08_silence_ends.
+Print Assumptions c08_fires_every_step.
+Print Assumptions c08_fires_ok_every_trace.
+Print Assumptions c08_connection_nonvacuous.
